@@ -186,12 +186,21 @@ class InRamPolicySupporter(policy_supporter.PolicySupporter):
         vz.MetricType.OBJECTIVE):
       raise ValueError('Requires at least one objective metric.')
 
+    # Only completed, feasible trials can be optimal. (Labels of other trials
+    # are NaN, which would otherwise poison the Pareto computation.)
+    candidates = [
+        t
+        for t in self.trials
+        if t.status == vz.TrialStatus.COMPLETED and not t.infeasible
+    ]
+    if not candidates:
+      return []
     # Add safety warping and remove safety metrics from conversion.
     safety_checker = multimetric.SafetyChecker(
         self.study_config.metric_information
     )
     warped_trials = safety_checker.warp_unsafe_trials(
-        copy.deepcopy(self.trials)
+        copy.deepcopy(candidates)
     )
     config_without_safe = copy.deepcopy(self.study_config)
     config_without_safe.metric_information = (
@@ -208,13 +217,13 @@ class InRamPolicySupporter(policy_supporter.PolicySupporter):
       count = count or 1  # Defaults to 1.
       labels = converter.to_labels(warped_trials).squeeze()
       sorted_idx = np.argsort(-labels)  # np.argsort sorts in ascending order.
-      return list(np.asarray(self.trials)[sorted_idx[:count]])
+      return list(np.asarray(candidates)[sorted_idx[:count]])
     else:
       algorithm = multimetric.FastParetoOptimalAlgorithm()
       is_optimal = algorithm.is_pareto_optimal(
           points=converter.to_labels(warped_trials)
       )
-      return list(np.asarray(self.trials)[is_optimal][:count])
+      return list(np.asarray(candidates)[is_optimal][:count])
 
   def SetPriorStudy(
       self, study: vz.ProblemAndTrials, study_guid: Optional[str] = None
